@@ -9,7 +9,8 @@
 //!                       scr  = - | <n|P|X>.<…>
 //!   r=<seg>,<seg>…      seg  = P | E | R | unit+unit…   unit = <i>h | <i>ha | <i>hb | <i>b<k> | <i>c<j> | <i>z
 //!   w=<tok>,<tok>…      tok  = <k> | P | X | Z
-//! output: W=<canonical wire hex> T=<len of a trailing incomplete head> C=<dispatched rids> X=<expect rids> R=<rid:bytes:end,…> D=<result> S=<shutdown calls>
+//! (optional `up=1`: an upgrade service is configured; req `U:…` = upgrade request, `L` = oversized never-ending head)
+//! output: W=<canonical wire hex> T=<len of a trailing incomplete head> U=<rids handed to the upgrade service> C=<dispatched rids> X=<expect rids> R=<rid:bytes:end,…> D=<result> S=<shutdown calls>
 #[path = "../c02_sock.rs"]
 pub mod sock;
 
@@ -39,6 +40,10 @@ pub enum ReqBody {
 
 #[derive(Clone, Debug)]
 pub struct Req {
+    /// `U`: GET with `connection: upgrade` + `upgrade: websocket`
+    pub upgrade: bool,
+    /// `L`: a head that never ends and is longer than the decoder's MAX_BUFFER_SIZE (128 KiB)
+    pub huge: bool,
     pub malformed: bool,
     pub method: &'static str,
     pub minor: u8,
@@ -56,10 +61,18 @@ pub struct Case {
     pub has_eof_or_reset: bool,
 }
 
+/// two halves of 66 000 bytes: the first stays below the decoder's 131 072 byte cap, both exceed it
+pub const HUGE_HEAD: usize = 132_000;
+
 const SMUGGLE: &[u8] = b"GET /99 HTTP/1.1\r\n\r\n";
 
 impl Req {
     pub fn head(&self, i: usize) -> Vec<u8> {
+        if self.huge {
+            let mut v = format!("GET /{i} HTTP/1.1\r\nx-fill: ").into_bytes();
+            v.resize(HUGE_HEAD, b'a');
+            return v;
+        }
         if self.malformed {
             return format!("GET /{i} HTTP/1.1\r\ncontent-length: x\r\n\r\n").into_bytes();
         }
@@ -77,6 +90,9 @@ impl Req {
         }
         if self.expect.is_some() {
             s.push_str("expect: 100-continue\r\n");
+        }
+        if self.upgrade {
+            s.push_str("upgrade: websocket\r\n");
         }
         s.push_str("\r\n");
         s.into_bytes()
@@ -113,8 +129,8 @@ fn parse_script(s: &str) -> Option<Vec<BodyTok>> {
 }
 
 fn parse_req(s: &str) -> Option<Req> {
-    if s == "X" {
-        return Some(Req { malformed: true, method: "GET", minor: 1, conn: '-', body: ReqBody::None, expect: None });
+    if s == "X" || s == "L" {
+        return Some(Req { upgrade: false, huge: s == "L", malformed: true, method: "GET", minor: 1, conn: '-', body: ReqBody::None, expect: None });
     }
     let f: Vec<&str> = s.split(':').collect();
     if f.len() != 5 {
@@ -126,6 +142,7 @@ fn parse_req(s: &str) -> Option<Req> {
         "P" => "POST",
         "T" => "PUT",
         "D" => "DELETE",
+        "U" => "GET",
         _ => return None,
     };
     let minor = match f[1] {
@@ -149,7 +166,7 @@ fn parse_req(s: &str) -> Option<Req> {
         "f" => Some(ExpectAct::Fail),
         w => Some(ExpectAct::Ok(w.strip_prefix('w')?.parse().ok()?)),
     };
-    Some(Req { malformed: false, method, minor, conn, body, expect })
+    Some(Req { upgrade: f[0] == "U", huge: false, malformed: false, method, minor, conn, body, expect })
 }
 
 fn parse_handler(s: &str) -> Option<Handler> {
@@ -227,7 +244,13 @@ fn parse_handler(s: &str) -> Option<Handler> {
 
 pub fn parse_case(line: &str) -> Option<Case> {
     let b = |k: &str| kv(line, k).map(|v| v == "1");
-    let cfg = Config { ka: b("ka")?, dt: b("dt")?, hc: b("hc")?, wb: kv(line, "wb")?.parse().ok().filter(|n| *n > 0)? };
+    let cfg = Config {
+        ka: b("ka")?,
+        dt: b("dt")?,
+        hc: b("hc")?,
+        wb: kv(line, "wb")?.parse().ok().filter(|n| *n > 0)?,
+        up: b("up").unwrap_or(false),
+    };
     let list = |k: &str, sep: char| -> Vec<String> {
         match kv(line, k) {
             None | Some("-") | Some("") => vec![],
@@ -389,6 +412,8 @@ impl Resp {
 }
 
 pub struct Split {
+    /// bytes after a `101 Switching Protocols` response (the upgraded protocol's data)
+    pub after_upgrade: Option<Vec<u8>>,
     pub finals: Vec<Resp>,
     /// number of `100 Continue` seen before final response k
     pub continues_before: Vec<usize>,
@@ -429,7 +454,7 @@ fn parse_chunked(b: &[u8]) -> (Vec<u8>, bool, usize) {
 }
 
 pub fn split_responses(w: &[u8], methods: &[&str]) -> Split {
-    let mut sp = Split { finals: vec![], continues_before: vec![], garbage_at: None, partial_head: false };
+    let mut sp = Split { after_upgrade: None, finals: vec![], continues_before: vec![], garbage_at: None, partial_head: false };
     let mut pos = 0;
     let mut conts = 0;
     while pos < w.len() {
@@ -492,6 +517,10 @@ pub fn split_responses(w: &[u8], methods: &[&str]) -> Split {
         conts = 0;
         pos = body_start + used;
         sp.finals.push(Resp { minor, status, headers, framing, body, complete, end: pos });
+        if status == 101 {
+            sp.after_upgrade = Some(w[pos..].to_vec());
+            break;
+        }
     }
     sp
 }
@@ -569,6 +598,7 @@ pub fn run_case(line: &str) -> Option<Run> {
     let rid = |r: &Option<usize>| r.map(|i| i.to_string()).unwrap_or_else(|| "?".into());
     let calls: Vec<String> = sim.log.calls.iter().map(|c| rid(&c.0)).collect();
     let xs: Vec<String> = sim.log.expect_calls.iter().map(rid).collect();
+    let ups: Vec<String> = sim.log.upgrades.iter().map(|u| rid(&u.0)).collect();
     let reads: Vec<String> = sim
         .log
         .reads
@@ -578,11 +608,12 @@ pub fn run_case(line: &str) -> Option<Run> {
     let dash = |v: Vec<String>| if v.is_empty() { "-".to_owned() } else { v.join(",") };
     let cw = canon_wire(&sim.wire);
     let output = format!(
-        "W={} T={} C={} X={} R={} D={} S={}",
+        "W={} T={} C={} X={} U={} R={} D={} S={}",
         hex(&cw.0),
         cw.1,
         dash(calls),
         dash(xs),
+        dash(ups),
         dash(reads),
         sim.done,
         sim.shutdown_calls
@@ -622,6 +653,36 @@ fn size_of(s: BodySize) -> String {
 
 /// C02's own words, evaluated on the implementation's wire bytes and call log only.
 pub fn oracle_c02(run: &Run) -> Option<(String, String)> {
+    let (sig, detail) = oracle_c02_raw(run)?;
+    // Known defect family (unchanged code): with an upgrade service configured, decoding an upgrade
+    // request overwrites the codec context without saving it, and the queued `Upgrade` message
+    // carries none. Symptoms are attributed to it only when they are context symptoms and the
+    // client did send an upgrade request behind at least one other request; lost / reordered /
+    // extra responses keep their own signatures.
+    let case = &run.case;
+    let up_at = case.reqs.iter().position(|r| r.upgrade);
+    if let (true, Some(u)) = (case.cfg.up, up_at) {
+        let k: Option<usize> = detail.find("response #").and_then(|p| {
+            detail[p + 10..].chars().take_while(|c| c.is_ascii_digit()).collect::<String>().parse().ok()
+        });
+        const CTX_SYMPTOMS: &[&str] = &[
+            "ctx-version", "ctx-conn", "ctx-head-flag", "bodiless-has-body", "framing-stream", "framing-sized",
+            "body-mismatch", "garbage-on-wire", "missing-response", "close-delimited-keepalive", "failure-looks-complete",
+            "close-delimited-not-last",
+        ];
+        if u > 0 && sig == "upgrade-data" {
+            return Some(("upgrade-ctx-of-earlier-request".into(), detail));
+        }
+        if u > 0 && CTX_SYMPTOMS.contains(&sig.as_str()) {
+            let on_upgrade = k == Some(u);
+            let s2 = if on_upgrade { "upgrade-ctx-of-earlier-request" } else if k.is_none_or(|k| k < u) { "earlier-response-has-upgrade-ctx" } else { sig.as_str() };
+            return Some((s2.to_owned(), format!("[{sig}] {detail}")));
+        }
+    }
+    Some((sig, detail))
+}
+
+fn oracle_c02_raw(run: &Run) -> Option<(String, String)> {
     let ids = match check_dispatch(run) {
         Ok(v) => v,
         Err(e) => return Some(e),
@@ -651,7 +712,8 @@ pub fn oracle_c02(run: &Run) -> Option<(String, String)> {
         let req = &case.reqs[i];
         let h = &case.handlers[i];
         let exp_fail = req.expect == Some(ExpectAct::Fail);
-        let want_rid = if h.status.is_err() || exp_fail { "e".to_owned() } else { i.to_string() };
+        let upgraded = req.upgrade && case.cfg.up && !exp_fail;
+        let want_rid = if (h.status.is_err() && !upgraded) || exp_fail { "e".to_owned() } else { i.to_string() };
         match r.header("x-rid") {
             Some(v) if v == want_rid => {}
             other => {
@@ -666,6 +728,18 @@ pub fn oracle_c02(run: &Run) -> Option<(String, String)> {
         }
         if r.minor != req.minor {
             return Some(("ctx-version".into(), format!("response #{k} to an HTTP/1.{} request is labelled HTTP/1.{}", req.minor, r.minor)));
+        }
+        if upgraded {
+            // answered by the upgrade service: its fixed 101 head, then its marker, nothing else
+            if r.status != 101 {
+                return Some(("status".into(), format!("response #{k} to the upgrade request has status {}", r.status)));
+            }
+            let tail = sp.after_upgrade.clone().unwrap_or_default();
+            let clean = !case.has_eof_or_reset && case.writes.is_empty();
+            if (clean && tail != UPGRADE_MARKER) || !UPGRADE_MARKER.starts_with(&tail) {
+                return Some(("upgrade-data".into(), format!("after the 101 the wire carries {:?}, the upgrade service wrote {:?}", String::from_utf8_lossy(&tail), String::from_utf8_lossy(UPGRADE_MARKER))));
+            }
+            continue;
         }
         let want_status = if exp_fail { 417 } else { h.status.unwrap_or_else(|e| e) };
         if r.status != want_status {
@@ -1030,6 +1104,7 @@ pub fn gen_random(rng: &mut Rng, body_bias: usize) -> String {
     let mut hs = Vec::new();
     let mut units = Vec::new();
     let bad_at = if rng.chance(1, 10) { Some(rng.below(n)) } else { None };
+    let mut body_cut = false;
     for i in 0..n {
         if bad_at == Some(i) {
             qs.push("X".to_owned());
@@ -1049,11 +1124,21 @@ pub fn gen_random(rng: &mut Rng, body_bias: usize) -> String {
         }
         if cut {
             // the client stops in the middle of this body: nothing follows
+            body_cut = true;
             break;
         }
     }
+    let mut up = "";
+    if !body_cut && rng.chance(1, 8) {
+        // the last thing the client sends is an upgrade request
+        let i = qs.len();
+        qs.push(format!("U:1:{}:n:-", rng.pick(&["u", "u", "-"])));
+        up = " up=1";
+        hs.push("p0:i:200:-:-:e".to_owned());
+        units.push(format!("{i}h"));
+    }
     let one = rng.chance(1, 3);
-    format!("{} q={} h={} r={} w={}", gen_cfg(rng), qs.join(";"), hs.join(";"), gen_reads(rng, units, one), gen_writes(rng))
+    format!("{}{up} q={} h={} r={} w={}", gen_cfg(rng), qs.join(";"), hs.join(";"), gen_reads(rng, units, one), gen_writes(rng))
 }
 
 fn gen(ctx: &Ctx) -> Vec<String> {
@@ -1086,6 +1171,59 @@ fn gen(ctx: &Ctx) -> Vec<String> {
                     for hd in ["-", "L7", "T", "L7T"] {
                         cases.push(format!("ka=1 dt=0 hc=1 wb=32768 q={m}:{v}:-:n:- h=p0:i:{st}:-:{hd}:{b} r=0h w=-"));
                     }
+                }
+            }
+        }
+    }
+    // upgrade request behind 0..2 ordinary pipelined requests, upgrade service configured: the
+    // hand-over to the upgrade service must not lose what was encoded before
+    for k in 0..=2usize {
+        for p in [0usize, 1, 2] {
+            for b in ["b5", "e", "s/3.P.4", "z4/2.2"] {
+                for (ri, r) in ["all", "stagger", "late"].iter().enumerate() {
+                    for w in ["-", "P", "7,P,9", "P,P,3"] {
+                        if ctx.tier == Tier::Quick && (k + p + ri) % 2 == 1 && w != "-" {
+                            continue;
+                        }
+                        let mut q: Vec<String> = (0..k).map(|j| if j == 0 { "G:1:-:n:-".to_owned() } else { "H:1:-:n:-".to_owned() }).collect();
+                        q.push("U:1:u:n:-".to_owned());
+                        let mut h: Vec<String> = (0..k).map(|j| format!("p{}:i:200:-:-:{b}", if j == 0 { p } else { 0 })).collect();
+                        h.push("p0:i:200:-:-:e".to_owned());
+                        let units: Vec<String> = (0..=k).map(|j| format!("{j}h")).collect();
+                        let reads = match *r {
+                            "all" => units.join("+"),
+                            "stagger" => units.join(",P,"),
+                            _ => format!("{},P,P,{}", units[..k].join("+"), units[k]).trim_start_matches(',').to_owned(),
+                        };
+                        cases.push(format!("ka=1 dt=0 hc=1 wb=32768 up=1 q={} h={} r={} w={w}", q.join(";"), h.join(";"), reads));
+                    }
+                }
+            }
+        }
+    }
+    // a pass-through (no_chunking + user Content-Length) stream response on a kept-alive connection,
+    // followed by a body-less response whose handler supplies a body: encoder state must not leak
+    for p in [0usize, 1] {
+        for (m2, st2) in [("H", "200"), ("G", "204"), ("H", "204")] {
+            for b2 in ["b4", "s/2.2", "z3/3"] {
+                for r in ["0h+1h", "0h,P,1h"] {
+                    cases.push(format!(
+                        "ka=1 dt=0 hc=1 wb=32768 q=G:1:-:n:-;{m2}:1:-:n:-;G:1:-:n:- h=p{p}:i:200:-:KL7:s/3.P.4;p0:i:{st2}:-:-:{b2};p0:i:200:-:-:b2 r={r},P,2h w=-"
+                    ));
+                }
+            }
+        }
+    }
+    // an oversized never-ending head (own read burst) behind 0..1 ordinary requests: exactly one 431
+    for k in 0..=1usize {
+        for p in [0usize, 1] {
+            for r in ["h", "ha,P,{}hb"] {
+                for w in ["-", "P", "P,P,5,P"] {
+                    let q = if k == 0 { "L".to_owned() } else { "G:1:-:n:-;L".to_owned() };
+                    let h = if k == 0 { "p0:i:200:-:-:e".to_owned() } else { format!("p{p}:i:200:-:-:b3;p0:i:200:-:-:e") };
+                    let big = format!("{k}{}", r.replace("{}", &k.to_string()));
+                    let reads = if k == 0 { big } else { format!("0h,P,{big}") };
+                    cases.push(format!("ka=1 dt=0 hc=1 wb=32768 q={q} h={h} r={reads} w={w}"));
                 }
             }
         }
